@@ -358,6 +358,11 @@ func TestC17_BytesReuse(t *testing.T) {
 			if p := catch(func() { err = dst.UnmarshalJSON([]byte(tok)) }); p != nil {
 				rt.Fatalf("VERIF-VIOLATION property=C17 Bytes.UnmarshalJSON(%.60q) into reused buffer panicked: %v", tok, p)
 			}
+			if tok == `null` && err == nil && len(dst) != 0 {
+				// a JSON null carries no bytes (a contract creation has "to": null): whether it is
+				// refused or read as empty, the destination must not keep what it held before
+				rt.Fatalf("VERIF-VIOLATION property=C17 reused destination still holds %x after decoding null without an error history=%v", []byte(dst), desc)
+			}
 			if valid {
 				if err != nil {
 					rt.Fatalf("VERIF-VIOLATION property=C17 Bytes.UnmarshalJSON(%.60q) reused: unexpected error %v", tok, err)
